@@ -84,7 +84,7 @@ def step (st : St) (line : String) : St × String :=
       id := (qget query "id") >>= parseInt64,
       lockID := (qget query "lockID") >>= parseInt64,
       nodeID := (qget query "nodeID") >>= fun v => parseNodeID (String.ofList (pctDecode v)),
-      node := if node == "own" then .own else if node == "other" then .other else .none,
+      node := if node.startsWith "own" then .own else if node == "other" then .other else .none,
       http2 := proto == "2" }
     (match route path method with
      | .notFound => (st, "status=404")
